@@ -314,7 +314,10 @@ impl DocumentBuilder {
     fn comment(&mut self, content: &str, xot: &mut Xot) -> Result<NodeId, ParseError> {
         // XXX are there illegal comments, like those with -- inside? or
         // won't they pass the parser?
-        Ok(self.add(Value::Comment(Comment::new(content.to_string())), xot))
+        // line ends are normalized in comments too
+        // https://www.w3.org/TR/xml/#sec-line-ends
+        let content = content.replace("\r\n", "\n").replace('\r', "\n");
+        Ok(self.add(Value::Comment(Comment::new(content)), xot))
     }
 
     fn processing_instruction(
@@ -326,11 +329,11 @@ impl DocumentBuilder {
         // XXX are there illegal processing instructions, like those with
         // ?> inside? or won't they pass the parser? What about those with xml?
         let target = xot.add_name(target);
+        // line ends are normalized in processing instructions too
+        // https://www.w3.org/TR/xml/#sec-line-ends
+        let content = content.map(|s| s.replace("\r\n", "\n").replace('\r', "\n"));
         Ok(self.add(
-            Value::ProcessingInstruction(ProcessingInstruction::new(
-                target,
-                content.map(|s| s.to_string()),
-            )),
+            Value::ProcessingInstruction(ProcessingInstruction::new(target, content)),
             xot,
         ))
     }
